@@ -6,4 +6,6 @@ HERE="$(cd "$(dirname "$0")" && pwd)"
 # prebuild the witness-search tool against /repo's current tree (checks rebuild it incrementally)
 cp /repo/Cargo.lock "$HERE/replay/Cargo.lock"
 (cd "$HERE/replay" && CARGO_TARGET_DIR="$HERE/../build/replay-target" CARGO_NET_OFFLINE=true cargo build --offline -q 2>/dev/null) || echo "warning: replay tool did not build"
+# conformance tests of the stand-ins (quote! muncher, ShaderStages shim, Debug names) against the real crates
+python3 "$HERE/conform.py" >/dev/null 2>&1 || echo "warning: shim conformance did not pass (see build/conformance.json)"
 echo "setup ok"
